@@ -1,7 +1,7 @@
 /-
 C01/C02 refinement: a DECIDABLE sufficient check for the coherence hypothesis `∀ d, Coh c d {ss} n` of the refinement
 theorem.  `flatL` lists (when nothing is skipped) the occurrences collected for an object type, `cohB` checks, for every
-possible object type, pairwise agreement per response key (aliased / field name / having a sub-selection), leaf types of
+possible object type, pairwise agreement per response key (field name / having a sub-selection), leaf types of
 fields without sub-selection, and recursively the sub-selections grouped by response key, down to the depth at which no
 selection is left.  `cohB_sound`: the check implies the hypothesis (for selection sets without fragment cycles, `fits`).
 -/
@@ -12,7 +12,7 @@ open NitroVerif.Gql NitroVerif.Ts NitroVerif.Exec NitroVerif.OpTypes
 /-- occurrences collected from one selection for an object of type `o` when nothing is skipped -/
 def flatSel (S : Schema) (F : FragMap) : Nat → Name → Selection → List FT
   | 0, _, _ => []
-  | _ + 1, _, .field alias name _ _ _ sub => [⟨keyOf alias name, alias.isSome, name, sub⟩]
+  | _ + 1, _, .field alias name _ _ _ sub => [⟨keyOf alias name, isAliased alias name, name, sub⟩]
   | D + 1, o, .inline cond _ ss _ => if condApplies S o cond then ss.flatMap (flatSel S F D o) else []
   | D + 1, o, .spread nm _ _ _ =>
     match F nm with
@@ -130,7 +130,7 @@ theorem flatSel_sub_fits {S : Schema} {F : FragMap} : ∀ (D : Nat) (o : Name) (
 
 def pairOk (ts : List FT) : Bool :=
   ts.all fun t => ts.all fun t' =>
-    !(t.key == t'.key) || (t.aliased == t'.aliased && t.name == t'.name && t.sub.isSome == t'.sub.isSome)
+    !(t.key == t'.key) || (t.name == t'.name && t.sub.isSome == t'.sub.isSome)
 
 def leafCk (S : Schema) (o : Name) (ts : List FT) : Bool :=
   ts.all fun t => t.name == "__typename" || match S.field? o t.name with
@@ -188,7 +188,7 @@ theorem cohB_sound (c : Ctx) (D : Nat) : ∀ (d : Nat) (sss : List (List Selecti
         simp only [Bool.or_eq_true, Bool.not_eq_true', beq_eq_false_iff_ne, ne_eq, Bool.and_eq_true, beq_iff_eq] at this
         rcases this with h1 | h1
         · exact absurd hk h1
-        · exact ⟨h1.1.1, h1.1.2, h1.2⟩
+        · exact ⟨h1.1, h1.2⟩
       · intro t fd ht htn hfd hsub
         have := List.all_eq_true.1 hleaf t (hmem t ht)
         simp only [htn, Bool.false_or, hfd, hsub, Option.isSome_none] at this
